@@ -119,6 +119,22 @@ func c15Replay(i int, raw json.RawMessage) Result {
 		return Result{OK: false, Sig: sig, Observed: obs, Expected: exp, Key: key,
 			Detail: "paths handed to Loader/Cache differ from Canon(" + name + ") = " + canon}
 	}
+	if v.Entry == "ParseExtends" && i%20 == 0 {
+		// a template parsed under an empty or relative name: whatever it refers to, the Loader and the Cache still
+		// only see clean absolute paths
+		for _, pname := range []string{"", ".", "x", "a/../y"} {
+			rec := &recorder{}
+			mem := jet.NewInMemLoader()
+			set := jet.NewSet(&recLoader{mem, rec}, jet.WithCache(&recCache{m: map[string]*jet.Template{}, rec: rec}), jet.WithTemplateNameExtensions(v.Exts))
+			set.Parse(pname, "{{extends "+strconv.Quote(name)+"}}")
+			for _, c := range rec.calls {
+				if !strings.HasPrefix(c.Path, "/") || path.Clean(c.Path) != c.Path && c.Path != "/" {
+					return Result{OK: false, Sig: sig, Observed: rec.calls, Expected: "clean absolute paths", Key: key,
+						Detail: fmt.Sprintf("Set.Parse(%q, extends %q) handed %s(%q) to the loader/cache", pname, name, c.Op, c.Path)}
+				}
+			}
+		}
+	}
 	if v.Entry == "includeData" && !v.Dev && v.Depth == 0 {
 		if d := c15Confined(&v); d != "" {
 			return Result{OK: false, Sig: sig, Observed: d, Expected: "nothing from outside the loader's directory", Key: key, Detail: d}
